@@ -37,10 +37,11 @@ BITS = {"whole": {0, 1, 2, 3}, "s32": {2, 3}, "e1": {1}, "e3": {3}, "dyn": {0, 1
 # sequential C2, K3 = concurrent C3; I = instance at architecture level, IK1 = inline entity inside C1,
 # IA0 = inline entity inside `cohdl.always(...)` of C0
 CTX_PLACES = ["A0", "B0", "K1", "B2", "K3"]
-INST_PLACES = ["I", "IK1", "IA0"]
+# I2 = ONE architecture-level instance whose TWO output ports are both connected to the object
+INST_PLACES = ["I", "IK1", "IA0", "I2"]
 CONC_UNITS = {"A0", "K1", "K3"}
 UNIT_KIND = {"A0": "always", "B0": "seq-body", "B2": "seq-body", "K1": "conc", "K3": "conc",
-             "I": "inst", "IK1": "inline-inst", "IA0": "inline-inst"}
+             "I": "inst", "IK1": "inline-inst", "IA0": "inline-inst", "I2": "inst"}
 CTX_OF = {"A0": 0, "B0": 0, "K1": 1, "B2": 2, "K3": 3, "IK1": 1, "IA0": 0}
 
 REASONS = ["RInputWritten", "RMultiWrite", "RMultiUse", "RVarInConc", "RVarAssign", "RTempRead"]
@@ -148,12 +149,19 @@ def build(placement):
         name = obj_name(k, kind)
         root = k + 1
         for place, acc, part in ob["acc"]:
+            if place == "I2":
+                if part == "whole":
+                    expr = "SubD(pi=self.ia, po=%s, pq=%s)" % (name, name)
+                else:
+                    expr = "SubD2(pi=self.ia[1:0], po=%s[3:2], pq=%s[3:2])" % (name, name)
+                insts[place].append((expr, [(root, kind), (root, kind)]))
+                continue
             if place in INST_PLACES:
                 if part == "whole":
                     expr = "Sub(pi=self.ia, po=%s)" % name
                 else:
                     expr = "Sub2(pi=self.ia[1:0], po=%s[3:2])" % name
-                insts[place].append((expr, (root, kind)))
+                insts[place].append((expr, [(root, kind)]))
                 continue
             if acc == "R":
                 sink = "r%d" % nsink
@@ -182,6 +190,21 @@ def build(placement):
              "    def architecture(self):", "        std.concurrent_assign(self.po, self.pi)", "", "",
              "class Sub2(cohdl.Entity):", "    pi = Port.input(BitVector[2])", "    po = Port.output(BitVector[2])", "",
              "    def architecture(self):", "        std.concurrent_assign(self.po, self.pi)", "", "",
+             "class SubD(cohdl.Entity):", "    pi = Port.input(BitVector[4])", "    po = Port.output(BitVector[4])",
+             "    pq = Port.output(BitVector[4])", "",
+             "    def architecture(self):", "        std.concurrent_assign(self.po, self.pi)",
+             "        std.concurrent_assign(self.pq, self.pi)", "", "",
+             "class SubD2(cohdl.Entity):", "    pi = Port.input(BitVector[2])", "    po = Port.output(BitVector[2])",
+             "    pq = Port.output(BitVector[2])", "",
+             "    def architecture(self):", "        std.concurrent_assign(self.po, self.pi)",
+             "        std.concurrent_assign(self.pq, self.pi)", "", "",
+             "class _NB:",
+             "    # nested blocks, opened with the calls the block machinery itself uses (std.block cannot be entered on this tree)",
+             "    def __init__(self, depth):", "        self.depth = depth", "",
+             "    def __enter__(self):", "        for nr in range(self.depth):",
+             "            cohdl._core._context._enter_block(cohdl.Block('blk_%d' % nr, {}))", "",
+             "    def __exit__(self, *args):", "        for nr in range(self.depth):",
+             "            cohdl._core._context._exit_block()", "", "",
              "class E(cohdl.Entity):", "    clk = Port.input(Bit)", "    ia = Port.input(BitVector[4])",
              "    ix = Port.input(Unsigned[2])"] + ports + ["", "    def architecture(self):"] + locals_
     ctx_terms = []
@@ -201,31 +224,55 @@ def build(placement):
         has_always = bool(stmts["A0"]) or bool(insts["IA0"])
         alw = "(Some [%s])" % "; ".join(events["A0"]) if has_always else "None"
         ctx_terms.append("(cx Sequential %s [%s])" % (alw, "; ".join(events["B0"])))
+    blocks = placement.get("blocks", {})
+    core = placement.get("core", [])
+    block_terms = []
     for place, iplace, fname in (("K1", "IK1", "c1"), ("B2", None, "c2"), ("K3", None, "c3")):
         its = insts[iplace] if iplace else []
         if not (stmts[place] or its):
             continue
         body_any = True
-        if place == "B2":
-            lines += ["", "        @std.sequential(std.Clock(self.clk))", "        def %s():" % fname]
+        depth = blocks.get(place, 0)
+        ind = "        "
+        lines.append("")
+        if depth:
+            lines.append("        with _NB(%d):" % depth)
+            ind = "            "
+        if place == "B2" and "B2" in core:
+            # core API process: no std wrapper, hence no reset_pushed() default assignment
+            lines += [ind + "@cohdl.sequential_context", ind + "def %s():" % fname, ind + "    if cohdl.rising_edge(self.clk):"]
+            ind2 = ind + "        "
+            ck = "Sequential"
+        elif place == "B2":
+            lines += [ind + "@std.sequential(std.Clock(self.clk))", ind + "def %s():" % fname]
+            ind2 = ind + "    "
             ck = "Sequential"
         else:
-            lines += ["", "        @std.concurrent", "        def %s():" % fname]
+            lines += [ind + "@std.concurrent", ind + "def %s():" % fname]
+            ind2 = ind + "    "
             ck = "Concurrent"
         for expr, rk in its:
-            lines.append("            " + expr)
+            lines.append(ind2 + expr)
             inline_terms.append(rk)
-        lines += ["            " + s for s in stmts[place]]
-        ctx_terms.append("(cx %s None [%s])" % (ck, "; ".join(events[place])))
+        lines += [ind2 + s for s in stmts[place]]
+        term = "(cx %s None [%s])" % (ck, "; ".join(events[place]))
+        if depth:
+            bt = "BBlock [%s] []" % term
+            for _ in range(depth - 1):
+                bt = "BBlock [] [%s]" % bt
+            block_terms.append(bt)
+        else:
+            ctx_terms.append(term)
     arch_terms = []
-    for expr, rk in insts["I"]:
+    for expr, rk in insts["I"] + insts["I2"]:
         lines += ["", "        " + expr]
         arch_terms.append(rk)
         body_any = True
     if not body_any:
         lines.append("        pass")
     source = "\n".join(lines) + "\n"
-    subs = "; ".join("BEntity [(%d%%positive, %s)]" % (r, COQ_KIND[k]) for r, k in arch_terms + inline_terms)
+    subs = "; ".join(block_terms + ["BEntity [%s]" % "; ".join("(%d%%positive, %s)" % (r, COQ_KIND[k]) for r, k in rks)
+                                    for rks in arch_terms + inline_terms])
     term = "{| d_ctxs := [%s]; d_subs := [%s] |}" % ("; ".join(ctx_terms), subs)
     return source, term
 
@@ -243,6 +290,8 @@ def py_spec(placement):
         for place, acc, part in ob["acc"]:
             if place in INST_PLACES:
                 drv.append(place)
+                if place == "I2":
+                    drv.append(place)      # two output ports of the instance
                 if kind == "pin":
                     conflicts.append(("input-port<-" + UNIT_KIND[place], k))
                 continue
@@ -278,8 +327,13 @@ def py_spec(placement):
 # generators
 # ----------------------------------------------------------------------------
 
-def P(*objs):
-    return {"objects": [{"kind": k, "acc": [tuple(a) for a in accs]} for k, accs in objs]}
+def P(*objs, blocks=None, core=None):
+    p = {"objects": [{"kind": k, "acc": [tuple(a) for a in accs]} for k, accs in objs]}
+    if blocks:
+        p["blocks"] = dict(blocks)      # {"B2" | "K3" | "K1": nesting depth of the block the context is declared in}
+    if core:
+        p["core"] = list(core)          # ["B2"]: that process is written with the core API (cohdl.sequential_context)
+    return p
 
 
 def corpus():
@@ -310,6 +364,29 @@ def corpus():
         pb = "s32" if b in INST_PLACES else "e1"
         c.append(P(("pout", [(a, "W", pa), (b, "W", pb)])))
     c.append(P(("sig", [("I", "W", "whole"), ("I", "W", "whole")])))
+    # one instance driving one signal through two of its output ports (whole / overlapping slices), alone and next to others
+    for kind in ("sig", "pout"):
+        c.append(P((kind, [("I2", "W", "whole")])))
+        c.append(P((kind, [("I2", "W", "s32")])))
+    c.append(P(("sig", [("I2", "W", "s32"), ("K3", "W", "e1")])))
+    c.append(P(("pin", [("I2", "W", "whole")])))
+    # contexts inside nested blocks (depth 1-3): conflicts with the top level, with another block, input written
+    for d in (1, 2, 3):
+        c.append(P(("pout", [("K3", "W", "whole")]), blocks={"K3": d}))
+        c.append(P(("pout", [("K3", "W", "whole"), ("K1", "W", "whole")]), blocks={"K3": d}))
+        c.append(P(("pout", [("B2", "W", "e1"), ("K1", "W", "e3")]), blocks={"B2": d}))
+        c.append(P(("sig", [("B2", "W", "whole"), ("K3", "W", "whole")]), blocks={"B2": d, "K3": d}))
+        c.append(P(("sig", [("B2", "W", "whole"), ("K3", "W", "whole")]), blocks={"B2": d, "K3": 1}))
+        c.append(P(("pin", [("K3", "W", "whole")]), blocks={"K3": d}))
+        c.append(P(("var", [("B2", "W", "whole"), ("B0", "R", "whole")]), blocks={"B2": d}))
+        c.append(P(("sig", [("I", "W", "whole"), ("K3", "W", "s32")]), blocks={"K3": d}))
+    # push-only process written with the core API (no reset_pushed() default assignment) next to a second writer
+    for other in ("B0", "K1", "K3", "A0", "I"):
+        for part in ("whole", "e1"):
+            c.append(P(("pout", [("B2", "P", part), (other, "W", "whole" if other == "I" else "e1")]), core=["B2"]))
+    c.append(P(("pout", [("B2", "P", "whole")]), core=["B2"]))
+    c.append(P(("pout", [("B2", "P", "e1"), ("B2", "W", "e3")]), core=["B2"]))
+    c.append(P(("pout", [("B2", "P", "whole"), ("K3", "W", "e1")]), core=["B2"], blocks={"K3": 2}))
     for pl in CTX_PLACES + INST_PLACES:                                                # test_write_input
         c.append(P(("pin", [(pl, "W", "whole")])))
     for pl in ("K1", "A0"):                                                            # test_variable_in_concurrent
@@ -334,7 +411,7 @@ def random_placement(rng):
     """2-3 objects x 2-3 contexts; mostly valid: with probability 0.6 all writers of an object sit in one
     unit (its "home"), otherwise they are placed freely"""
     ctxs = rng.sample([0, 1, 2, 3], rng.choice([2, 3, 3]))
-    places = [p for p in CTX_PLACES + INST_PLACES if p == "I" or CTX_OF[p] in ctxs]
+    places = [p for p in CTX_PLACES + INST_PLACES if p in ("I", "I2") or CTX_OF[p] in ctxs]
     nobj = rng.choice([2, 2, 3])
     objs = []
     for _ in range(nobj):
@@ -366,7 +443,11 @@ def random_placement(rng):
             objs.append((kind, accs))
     if not objs:
         return random_placement(rng)
-    return P(*objs)
+    blocks = {pl: rng.choice([1, 2, 2, 3]) for pl in ("K1", "B2", "K3") if rng.random() < 0.3}
+    if any(a[0] == "IK1" for _, accs in objs for a in accs):
+        blocks.pop("K1", None)          # an inline instance is registered in the block of its context: keep that at the top
+    core = ["B2"] if rng.random() < 0.3 else None
+    return P(*objs, blocks=blocks, core=core)
 
 
 def exhaustive_pairs():
@@ -718,7 +799,7 @@ def run(ck: common.Check, replay=None):
     ck.cov["model"] = MODEL
     if replay is not None and "placement_json" in replay:
         p = replay["placement_json"]
-        p = {"objects": [{"kind": o["kind"], "acc": [tuple(a) for a in o["acc"]]} for o in p["objects"]]}
+        p = dict(p, objects=[{"kind": o["kind"], "acc": [tuple(a) for a in o["acc"]]} for o in p["objects"]])
         evaluate(ck, [p], "replay")
         return
     observe_overlap(ck)
@@ -772,6 +853,13 @@ def run(ck: common.Check, replay=None):
             todo.append(p)
         ck.cov["exhaustive"] = True
     ck.cov["placements"] = len(todo)
+    for p in todo:
+        for pl, d in p.get("blocks", {}).items():
+            ck.hist("context_in_nested_block_depth", d)
+        if p.get("core"):
+            ck.hist("process_flavour", "core-api (no reset_pushed)")
+        if any(a[0] == "I2" for o in p["objects"] for a in o["acc"]):
+            ck.hist("instance_with_two_outputs_on_one_object", 1)
     for k0 in ("over_rejected", "accepted", "rejected", "single_driver_true"):
         ck.cov.setdefault(k0, 0)
     chunk = 2500
@@ -784,8 +872,9 @@ def run(ck: common.Check, replay=None):
                    "(C07_single_driver_sound: one delta cycle is independent of the statement order)",
                    "the placement -> source rendering of harness/c07.py (the model sees the placement, the compiler the source)"]
     ck.assumptions += [
-        "nested generic blocks cannot be created on this tree (std.block raises TypeError: Block is no context manager); "
-        "Usage.design models them, the generator covers entity instances (architecture level and inline) only",
+        "std.block cannot be entered on this tree (TypeError: Block is no context manager); nested generic blocks are "
+        "opened with the calls the block machinery itself uses (cohdl._core._context._enter_block / _exit_block) around "
+        "the contexts c1/c2/c3, depth 1-3, and are modelled by Usage.BBlock",
         "two overlapping assignments to one root inside ONE concurrent context / always block are not generated: the "
         "property speaks about different contexts; such a design is accepted and yields two concurrent VHDL drivers",
         "compiler-internal temporaries (run-time index copies) are not part of the placement; user temporaries are "
